@@ -532,3 +532,53 @@ class RemoveMethod(_MethodTable):
 
 
 CONTRACTS += [SetMethod(), SetMethods(), AddMethod(), RaiseIfRegistered(), RemoveMethod()]
+
+
+class RouterAdd(Contract):
+    """RadiRouter.add: the registration-side normalisation of verbs — every given name, one string or any list of strings,
+    reaches _add upper-cased, in order, nothing dropped or added; everything else is passed through unchanged."""
+    props = ('C02',)
+    file = 'ombott/router/radirouter.py'
+    qualname = 'RadiRouter.add'
+    assumptions = ('str.upper is an uninterpreted function (the request side upper-cases with the same function: PropsMixin.method)',
+                   'lists of 1..3 names are checked (the comprehension is unrolled; the element expression does not depend on the length)')
+    expected_labels = ('call.every_name_upper_cased_in_order', 'call.other_arguments_passed_through', 'post.returns_what__add_returns')
+
+    def pre(self, X):
+        self.upper = X.driver.uf('str_upper', StrSort, StrSort)
+        k = X.choose(4, 'methods: one str | list of 1 | list of 2 | list of 3')
+        self.names = [X.fresh_str(f'm{i}') for i in range(max(k, 1))]
+        methods = self.names[0] if k == 0 else VList(list(self.names))
+        self.rule, self.handler = X.fresh_str('rule'), VOpaque(X.fresh(PyObj, 'handler'), 'func')
+        self.name, self.meta, self.ow = VOpaque(X.fresh(PyObj, 'name'), 'obj'), VOpaque(X.fresh(PyObj, 'meta'), 'obj'), X.fresh_bool('overwrite')
+        self.result = VOpaque(X.fresh(PyObj, 'added'), 'route')
+        self.called = 0
+        c = self
+
+        def _add(X, args, kwargs):
+            c.called += 1
+            ms = args[2] if len(args) > 2 else None
+            ok = isinstance(ms, (VList, VTuple)) and len(ms.items) == len(c.names) and all(isinstance(i, VStr) for i in ms.items)
+            X.prove('call.every_name_upper_cased_in_order',
+                    z3.And(*[i.t == c.upper(n.t) for i, n in zip(ms.items, c.names)]) if ok else z3.BoolVal(False))
+            rest_ok = (len(args) == 5 and args[1] is c.rule and args[3] is c.handler and args[4] is c.name
+                       and kwargs.get('meta') is c.meta and kwargs.get('overwrite') is c.ow and set(kwargs) == {'meta', 'overwrite'})
+            X.prove('call.other_arguments_passed_through', z3.BoolVal(bool(rest_ok)))
+            return c.result
+        self.stubs = {'RadiRouter._add': _add}
+        return {'self': VObj('RadiRouter', {}), 'rule': self.rule, 'methods': methods, 'handler': self.handler,
+                'name': self.name, 'meta': self.meta, 'overwrite': self.ow}
+
+    def method_hook(self, X, obj, name, args, kwargs):
+        if isinstance(obj, VStr) and name == 'upper' and not args:
+            return VStr(self.upper(obj.t))
+        return None
+
+    def post(self, X, ret):
+        X.prove('post.returns_what__add_returns', z3.BoolVal(ret is self.result and self.called == 1))
+
+    def post_raise(self, X, exc):
+        X.prove('raises.nothing', z3.BoolVal(False))
+
+
+CONTRACTS += [RouterAdd()]
